@@ -186,6 +186,26 @@ var c11Scripts = map[string][]c11Step{
 		mut("N1 label update", []ckey{nodeKey("n1")}, updNode("n1", func(n *corev1.Node) { n.Labels["x"] = "y" })),
 		mut("unmark pid1", nil, func(x *c11Run) { x.inf.Cluster.UnmarkForDeletion("pid1"); delete(x.marks, "pid1") }),
 	},
+	// a command is rolled back (unmark) after the deletion of the marked NodeClaim has already been observed
+	"mark-claim-deleting-unmark": {
+		mut("C1+N1", []ckey{claimKey("c1"), nodeKey("n1")}, func(x *c11Run) { addObj(c11Claim("c1", "a", "pid1"))(x); addObj(c11Node("n1", "a", "pid1", true))(x) }),
+		mut("C2+N2", []ckey{claimKey("c2"), nodeKey("n2")}, func(x *c11Run) { addObj(c11Claim("c2", "a", "pid2"))(x); addObj(c11Node("n2", "a", "pid2", true))(x) }),
+		mut("mark pid1 for deletion", nil, func(x *c11Run) {
+			known := false
+			for n := range x.inf.Cluster.Nodes() {
+				if n.ProviderID() == "pid1" {
+					known = true
+				}
+			}
+			if known {
+				x.inf.Cluster.MarkForDeletion("pid1")
+				x.marks["pid1"] = true
+			}
+		}),
+		mut("C1 starts deleting", []ckey{claimKey("c1")}, updClaim("c1", func(n *v1.NodeClaim) { dt := metaT(world.Epoch); n.DeletionTimestamp = &dt })),
+		mut("unmark pid1", nil, func(x *c11Run) { x.inf.Cluster.UnmarkForDeletion("pid1"); delete(x.marks, "pid1") }),
+		mut("N2 label update", []ckey{nodeKey("n2")}, updNode("n2", func(n *corev1.Node) { n.Labels["x"] = "y" })),
+	},
 	"csinode-limit-and-pvc": {
 		mut("C1+N1 with CSINode limit 1", []ckey{claimKey("c1"), nodeKey("n1")}, func(x *c11Run) {
 			addObj(c11Claim("c1", "a", "pid1"))(x)
@@ -407,7 +427,7 @@ func init() {
 			names = append(names, n)
 		}
 		sort.Strings(names)
-		r.Rule = fmt.Sprintf("%d mutation scripts (launch / provider-id set late / pods completing, deleted, recreated under the same name elsewhere / Node and NodeClaim deletions in both orders / explicit deletion marks and deleting claims / CSINode limits / two pools) are applied to the API; after every mutation each notified key is either delivered to the REAL informer reconciler at once (default) or deferred, and earlier keys may be re-delivered (duplicates); all delivery histories with <=%d such deviations are explored, each ending with the delivery of the still-unobserved keys in each of 12 orders (6 kind orders x 2 key orders, level-triggered retries). "+
+		r.Rule = fmt.Sprintf("%d mutation scripts (launch / provider-id set late / pods completing, deleted, recreated under the same name elsewhere / Node and NodeClaim deletions in both orders / explicit deletion marks and deleting claims, a mark rolled back after the deletion was observed / CSINode limits / two pools) are applied to the API; after every mutation each notified key is either delivered to the REAL informer reconciler at once (default) or deferred, and earlier keys may be re-delivered (duplicates); all delivery histories with <=%d such deviations are explored, each ending with the delivery of the still-unobserved keys in each of 12 orders (6 kind orders x 2 key orders, level-triggered retries). "+
 			"Oracle, evaluated at EVERY point where the latest version of every object has been observed (not only at the end): the cache observed through exported accessors must equal (1) a fresh cache fed the final objects claims-first and (2) one fed nodes-and-pods-first, and (3) an independent recomputation of node set, per-node pod/daemon cpu, disruption cost, deletion marks and per-pool totals from the API objects. states = quiescent points checked; non-trivial = distinct (script, delivery history)", len(names), bound)
 		r.Assumptions = []string{"deliveries are atomic (no preemption inside an informer reconcile)", "explicit deletion marks are in-memory inputs; the reference tracks them by provider id"}
 		enum.RunEveryShard(r, int64(len(names)), func(i int64, l *ev.Local) {
